@@ -188,6 +188,11 @@ def judge(L, seed, kind, real):
         return f"{tag}: power spectrum changes under rotation"
     if not np.allclose(s0, want ** 2 / (2 * np.arange(L + 1) + 1), atol=tol * scale):
         return f"{tag}: power spectrum is not |c_l|²/(2l+1)"
+    # the spectrum is a function of the coefficient vector (its length fixes the degree), not of the transform object asked
+    for other in {L + 3, max(L - 2, 0), 2 * L + 1} - {L}:
+        so = SHT(other).power_spectrum(c0)
+        if np.shape(so) != np.shape(s0) or not np.allclose(so, s0, rtol=0, atol=tol * scale):
+            return f"{tag}: power_spectrum of the degree-{L} vector asked through SHT({other}) has {np.shape(so)[0]} entries / other values than through SHT({L})"
     if real:
         r0, r1 = sht.analysis(f0.real.copy()), sht.analysis(f1.real.copy())
         if not np.allclose(sht.power_spectrum(r0), s0, atol=tol * scale) or not np.allclose(sht.power_spectrum(r1), s0, atol=tol * scale):
